@@ -45,6 +45,7 @@ const (
 	tagZero   = "iso-extra-zero-block"
 	tagJSub   = "iso-joliet-subdir-extent"
 	tagDots   = "iso-name-dots-trimmed"
+	tagJDots  = "iso-joliet-name-dots-trimmed"
 	tagCE     = "iso-rr-continuation-aliased"
 	tagReloc  = "iso-rr-relocation-broken"
 	tagNMCont = "iso-rr-name-continuation"
@@ -485,6 +486,11 @@ func checkCase(c *hx.Ctx, id string, root *node, cf cfg) *caseResult {
 		} else if err := cmpMangled(root, pv); err != nil {
 			return fmt.Errorf("primary tree (8.3 names): %v", err)
 		}
+		// identifiers pairwise distinct within every directory, names distinct below every path-table parent
+		// (relocated trees: the path table follows the moved layout, a recorded defect covers them)
+		if err := checkIdents("primary tree", img.pvd, img.ptLRecs, !relocated); err != nil {
+			return err
+		}
 		// extents inside the volume and pairwise disjoint
 		if err := checkExtents(img.extents(), volBytes); err != nil {
 			return err
@@ -545,6 +551,9 @@ func checkCase(c *hx.Ctx, id string, root *node, cf cfg) *caseResult {
 					return fmt.Errorf("Joliet tree: %v [the Joliet tree shows the Rock Ridge relocated layout]", err), tagReloc
 				}
 				return fmt.Errorf("Joliet tree: %v", err), tagNoFind
+			}
+			if err := checkIdents("Joliet tree", img.svd, img.jptLRecs, !relocated); err != nil {
+				return err, tagNoFind
 			}
 			if img.jVolBlocks != img.volBlocks {
 				return fmt.Errorf("Joliet descriptor says %d blocks, primary %d", img.jVolBlocks, img.volBlocks), tagNoFind
@@ -678,6 +687,11 @@ func checkCase(c *hx.Ctx, id string, root *node, cf cfg) *caseResult {
 				e3[nk] = v
 			}
 			if changed && len(e3) == len(exp) && cmpExact(e3, lv) == nil {
+				if cf.joliet && !cf.rr {
+					// recorded defect: the repair of iso-name-dots-trimmed exempts Rock Ridge names only; a
+					// Joliet name (the real name as well) still loses a trailing dot
+					return fmt.Errorf("%v [Joliet file names come back with a trailing dot removed]", first), tagJDots
+				}
 				return fmt.Errorf("%v [file names come back with leading/trailing dots removed]", first), tagDots
 			}
 		}
